@@ -354,6 +354,19 @@ class C16(FloatSpec):
         if abs(tp - A) > P_TOL * A or abs(wrap(np.angle(r) - p)) > P_TOL:
             return (f'tone_conv on a whole-cycle tone (A={A!r}, p={p!r}, n={n}, k={k}, fs={fs!r}, window={w}) gives '
                     f'power {tp!r}, phase {np.angle(r)!r}')
+        # the analysis frequency handed over as the caller's own array (0-d and 1-d), and re-used for the next call:
+        # the estimate depends on the arguments' values only, and the arguments are still what the caller put there
+        for farr in (np.array(f, dtype=np.double), np.array([f], dtype=np.double)):
+            keep, s_keep = farr.copy(), s.copy()
+            a1 = np.asarray(util.tone_power_conv(s, fs, farr, window=w, detrend=None), dtype=float).reshape(-1)[0]
+            a2 = np.asarray(util.tone_power_conv(s, fs, farr, window=w, detrend=None), dtype=float).reshape(-1)[0]
+            p2 = float(np.angle(np.asarray(util.tone_conv(s, fs, farr, window=w, detrend=None)).reshape(-1)[0]))
+            if not np.array_equal(farr, keep) or not np.array_equal(s, s_keep):
+                return (f'tone estimators modified their arguments: frequency array {keep.tolist()!r} -> '
+                        f'{farr.tolist()!r} (n={n}, k={k}, fs={fs!r})')
+            if abs(a1 - A) > P_TOL * A or abs(a2 - A) > P_TOL * A or abs(wrap(p2 - p)) > P_TOL:
+                return (f'tone estimators with the frequency given as a {farr.ndim}-d array, called three times on the '
+                        f'same arguments: powers {a1!r}, {a2!r}, phase {p2!r}; A={A!r}, p={p!r} (n={n}, k={k}, fs={fs!r})')
         # defaults (detrend='linear'): the least-squares line through whole cycles of a sinusoid is not zero.  Its
         # slope is at most 6*sqrt(2)*A / ((n^2-1) sin(pi k/n)), and a unit ramp reads 1 / (sqrt(2) sin(pi k/n)) at
         # bin k after the csd scaling, so the reading at bin k moves by at most  A * 6 / ((n^2-1) sin^2(pi k/n))
